@@ -59,7 +59,10 @@ class Codec:
                      for k, v in arg.items())
             return [0, 1 if ok else 0]
         if kind == 2:
-            sp = getattr(w.agents.get(agent_id), "observation_space", None)
+            # the augmented spaces exist for agents (observing AND acting) only; an observing-only
+            # entity keeps its own space and is nobody's communication partner
+            ag = w.agents.get(agent_id)
+            sp = getattr(ag, "observation_space", None) if hasattr(ag, "action_space") else None
             member = 1 if (sp is None or sp.contains(val)) else 0
             return [1, int(val["obs"]), bits(val["message_buffer"]), member]
         if kind == 3:
